@@ -118,10 +118,10 @@ theorem nodup_dropKey (k : String) {ss : List (String × Val)} (nd : (ss.map Pro
 theorem valRel_none : ∀ (R : Nat → Nat → Prop), ValRel R none none := fun _ => trivial
 
 /-- Entries of the new `__dict__` agree key by key with the original's. -/
-theorem copyInstWith_bspec {fix : Bool} {cs : List ClassDesc} {h0 : Heap} (W : WorldOK2 cs h0) {dc : Copier}
+theorem copyInstWith_bspec {cs : List ClassDesc} {h0 : Heap} (W : WorldOK2 cs h0) {dc : Copier}
     (S : Spec h0 dc) (T : BSpec h0 dc) {cd : ClassDesc} {ci : Nat} (hcd : cs[ci]? = some cd) {l : Nat} {o : Obj}
     (ho : h0[l]? = some o) (hk : o.kind = .inst ci) {h h1 : Heap} {ss : List (String × Val)}
-    (e : Ext h0 h) (B : Blk h0.length h) (hc : copyInstWith fix dc cd h o = some (h1, ss)) :
+    (e : Ext h0 h) (B : Blk h0.length h) (hc : copyInstWith dc cd h o = some (h1, ss)) :
     ∀ k, ValRel (ObsEq h1) (o.slots.lookup k) (ss.lookup k) := by
   have ok := W.classes ci cd hcd
   have O := oldSlots_of_wf W.wf ho
@@ -175,11 +175,11 @@ theorem copyInstWith_bspec {fix : Bool} {cs : List ClassDesc} {h0 : Heap} (W : W
           have Nsub : NewV h0.length h2 (.ref ha.length) := by
             have := e2.len; simp at this
             exact NewV.ref lena (by omega)
-          have C := construct_ok (b := h0.length) W.wf ((e.trans ea).trans ed) ok B2 (by omega) fix sp
+          have C := construct_ok (b := h0.length) W.wf ((e.trans ea).trans ed) ok B2 (by omega) sp
             (.ref ha.length) N2 Nsub
-          have CK := construct_keys fix cd h2 sp (.ref ha.length)
-          have CS := construct_lookup_submodels fix cd h2 sp (.ref ha.length) hl
-          generalize construct fix cd h2 sp (.ref ha.length) = r3 at hc C CK CS
+          have CK := construct_keys cd h2 sp (.ref ha.length)
+          have CS := construct_lookup_submodels cd h2 sp (.ref ha.length) hl
+          generalize construct cd h2 sp (.ref ha.length) = r3 at hc C CK CS
           obtain ⟨h3, init⟩ := r3
           simp only at hc CK CS
           cases h4c : copyEachWith dc h3 (dropKey "submodels" o.slots) with
@@ -226,10 +226,10 @@ theorem copyInstWith_bspec {fix : Bool} {cs : List ClassDesc} {h0 : Heap} (W : W
       simp only [hd] at hc
       obtain ⟨ea, Ba, _, Nsp⟩ := S h [] _ ha ma sp e B (MemoOK.nil _ _) Osp hd
       have lena := (e.trans ea).len
-      have C := construct_ok (b := h0.length) W.wf (e.trans ea) ok Ba (by omega) fix sp (.imm .none) Nsp
+      have C := construct_ok (b := h0.length) W.wf (e.trans ea) ok Ba (by omega) sp (.imm .none) Nsp
         (NewV.imm _ _ _)
-      have CK := construct_keys fix cd ha sp (.imm .none)
-      generalize construct fix cd ha sp (.imm .none) = r3 at hc C CK
+      have CK := construct_keys cd ha sp (.imm .none)
+      generalize construct cd ha sp (.imm .none) = r3 at hc C CK
       obtain ⟨h3, init⟩ := r3
       simp only at hc CK
       cases h4c : copyEachWith dc h3 o.slots with
@@ -253,8 +253,8 @@ theorem copyInstWith_bspec {fix : Bool} {cs : List ClassDesc} {h0 : Heap} (W : W
           rw [lookup_none_of_not_mem this]
           trivial
 
-theorem deepcopy_bspec {fix : Bool} {cs : List ClassDesc} {h0 : Heap} (W : WorldOK2 cs h0) :
-    ∀ n, BSpec h0 (deepcopy fix cs n) := by
+theorem deepcopy_bspec {cs : List ClassDesc} {h0 : Heap} (W : WorldOK2 cs h0) :
+    ∀ n, BSpec h0 (deepcopy cs n) := by
   intro n
   induction n with
   | zero =>
@@ -267,7 +267,7 @@ theorem deepcopy_bspec {fix : Bool} {cs : List ClassDesc} {h0 : Heap} (W : World
     | ref l => simp [deepcopy] at hc
   | succ n ih =>
     intro h m v h1 m1 v1 e B M O Q hc
-    have S := deepcopy_spec (fix := fix) W.toWorldOK n
+    have S := deepcopy_spec W.toWorldOK n
     cases v with
     | imm i =>
       simp [deepcopy] at hc
@@ -296,7 +296,7 @@ theorem deepcopy_bspec {fix : Bool} {cs : List ClassDesc} {h0 : Heap} (W : World
             | none => simp [hcd] at hc
             | some cd =>
               simp only [hcd] at hc
-              cases hci : copyInstWith fix (deepcopy fix cs n) cd h o with
+              cases hci : copyInstWith (deepcopy cs n) cd h o with
               | none => simp [hci] at hc
               | some r =>
                 obtain ⟨ha, ss⟩ := r
@@ -314,7 +314,7 @@ theorem deepcopy_bspec {fix : Bool} {cs : List ClassDesc} {h0 : Heap} (W : World
                 · exact (Q.mono (ea.trans (Ext.append _ _))) a c h2
           | list | array | dict | trace | cls =>
             simp only [hk] at hc
-            cases hcs : copySlotsWith (deepcopy fix cs n) h m o.slots with
+            cases hcs : copySlotsWith (deepcopy cs n) h m o.slots with
             | none => simp [hcs] at hc
             | some r =>
               obtain ⟨ha, ma, ss⟩ := r
@@ -335,10 +335,10 @@ theorem deepcopy_bspec {fix : Bool} {cs : List ClassDesc} {h0 : Heap} (W : World
               · exact (Qa.mono (Ext.append _ _)) a c h2
 
 /-- The copy is observationally equal to the original. -/
-theorem copyRoot_obsEq {fix : Bool} {cs : List ClassDesc} {h0 : Heap} (W : WorldOK2 cs h0) {a c : Nat} {h1 : Heap}
-    (ha : a < h0.length) (hc : copyRoot fix cs h0 a = some (h1, c)) : ObsEq h1 a c := by
+theorem copyRoot_obsEq {cs : List ClassDesc} {h0 : Heap} (W : WorldOK2 cs h0) {a c : Nat} {h1 : Heap}
+    (ha : a < h0.length) (hc : copyRoot cs h0 a = some (h1, c)) : ObsEq h1 a c := by
   unfold copyRoot at hc
-  cases hd : deepcopy fix cs (h0.length + 1) h0 [] (.ref a) with
+  cases hd : deepcopy cs (h0.length + 1) h0 [] (.ref a) with
   | none => simp [hd] at hc
   | some r =>
     obtain ⟨hh, mm, v⟩ := r
